@@ -1,6 +1,6 @@
 //! C10 Total API: no public operation panics, aborts or fails to terminate on any input (E1).
 //! Every call is made inside catch_unwind at the call boundary; a watchdog thread reports a case
-//! that does not return within 60 s.
+//! that does not return within 300 s.
 
 use crate::{
     ctx::{Ctx, Tier},
@@ -24,12 +24,20 @@ use std::{
 static HEART: [AtomicU64; 64] = [const { AtomicU64::new(0) }; 64];
 static CURRENT: Mutex<Vec<(u64, String)>> = Mutex::new(Vec::new());
 
+/// a batch of probes (at most a few thousand cheap calls, normally milliseconds) that has not finished after this
+/// long is a call that does not return; monotonic clock, generous enough for a heavily loaded machine
+const HANG_MS: u64 = 300_000;
+fn mono_ms() -> u64 {
+    static T0: std::sync::OnceLock<std::time::Instant> = std::sync::OnceLock::new();
+    T0.get_or_init(std::time::Instant::now).elapsed().as_millis() as u64 + 1
+}
+
 fn slot() -> usize {
     rayon::current_thread_index().unwrap_or(63) % 64
 }
 fn begin(desc: impl FnOnce() -> String) {
     let s = slot();
-    let t = std::time::SystemTime::now().duration_since(std::time::UNIX_EPOCH).unwrap().as_millis() as u64;
+    let t = mono_ms();
     HEART[s].store(t, Ordering::Relaxed);
     if let Ok(mut g) = CURRENT.try_lock() {
         if g.len() < 64 {
@@ -44,12 +52,12 @@ fn end() {
 fn start_watchdog() {
     std::thread::spawn(|| loop {
         std::thread::sleep(std::time::Duration::from_secs(2));
-        let now = std::time::SystemTime::now().duration_since(std::time::UNIX_EPOCH).unwrap().as_millis() as u64;
+        let now = mono_ms();
         for (k, h) in HEART.iter().enumerate() {
             let t = h.load(Ordering::Relaxed);
-            if t != 0 && now.saturating_sub(t) > 60_000 {
+            if t != 0 && now.saturating_sub(t) > HANG_MS {
                 let d = CURRENT.lock().map(|g| g.get(k).map(|x| x.1.clone()).unwrap_or_default()).unwrap_or_default();
-                println!("  signature: a public operation did not return within 60 s");
+                println!("  signature: a public operation did not return within {} s", HANG_MS / 1000);
                 println!("  detail: {d}");
                 let _ = std::fs::create_dir_all(format!("{}/replays", *crate::ctx::VERIF_DIR));
                 let _ = std::fs::write(format!("{}/replays/C10-hang.json", *crate::ctx::VERIF_DIR), serde_json::to_string_pretty(&json!({"property": "C10", "signature": "hang", "detail": d, "case": {"kind": "hang", "desc": d}})).unwrap());
@@ -577,7 +585,7 @@ pub fn run(tier: Tier) -> i32 {
     let ctx = Ctx::new("C10", tier, "fault_enumeration");
     let thorough = !ctx.quick();
     start_watchdog();
-    ctx.set_rule("every case is one public call made inside catch_unwind: parsing (single-edit, non-ASCII, oversized strings) and building whatever parses; Builder with local/remote/fixed-ephemeral keys of every length 0..=200 x {25519, P256} x 8 patterns x every subset of the other keys x both roles, every pattern (+psk0/psk1) x {25519, P256} x both roles x every subset of well-formed {local, remote, fixed ephemeral, psk}, prologues up to 100 000 bytes, psk positions 0..=12; for every handshake name of a suite and both DH functions: every reachable handshake state (honest prefix of 0..=2n calls, also after one failed call) x write_message with payload {0,4,65535,65536} x buffer lengths around every field boundary and {0,1,65534..66000} x read_message with genuine / truncated-at-every-boundary / constant / wrong-index / oversize messages x payload buffers {0,1,3,4,5,20,70000} x set_psk(0..=12, len {0,31,32,33}) x both conversions x getters; both transport modes with boundary nonces and sizes. Oracle: the call returns. A watchdog reports a call that does not return within 60 s");
+    ctx.set_rule("every case is one public call made inside catch_unwind: parsing (single-edit, non-ASCII, oversized strings) and building whatever parses; Builder with local/remote/fixed-ephemeral keys of every length 0..=200 x {25519, P256} x 8 patterns x every subset of the other keys x both roles, every pattern (+psk0/psk1) x {25519, P256} x both roles x every subset of well-formed {local, remote, fixed ephemeral, psk}, prologues up to 100 000 bytes, psk positions 0..=12; for every handshake name of a suite and both DH functions: every reachable handshake state (honest prefix of 0..=2n calls, also after one failed call) x write_message with payload {0,4,65535,65536} x buffer lengths around every field boundary and {0,1,65534..66000} x read_message with genuine / truncated-at-every-boundary / constant / wrong-index / oversize messages x payload buffers {0,1,3,4,5,20,70000} x set_psk(0..=12, len {0,31,32,33}) x both conversions x getters; both transport modes with boundary nonces and sizes. Oracle: the call returns. A watchdog reports a call that does not return within 300 s");
     let names = name_strings();
     names.par_iter().for_each(|s| check_name(&ctx, s));
     ctx.count("name_strings", names.len() as u64);
